@@ -7,6 +7,8 @@ let dispatch fnum z nat entry (is : int list) (xs : Obj.t list) : Obj.t list res
   | "to_spherical", [] -> run_to_spherical fnum xs
   | "lambert", [] -> run_lambert fnum xs
   | "poles", [ax; n] -> run_poles fnum (z ax) (nat n) xs
+  | "poles_str", n :: pick :: cs -> run_poles_str fnum (nat n) (nat pick) (List.map z cs) xs
+  | "axes_read", cs -> run_axes_read fnum (List.map z cs) xs
   | "density", [k; axial; g; n] -> run_density fnum (z k) (z axial) (nat g) (nat n) xs
   | "raw_totals", [k; axial; g; n] -> run_raw_totals fnum (z k) (z axial) (nat g) (nat n) xs
   | _ -> Err OtherError
